@@ -297,11 +297,13 @@ def plan(tier):
         for i, j in itertools.combinations(range(n), 2):
             h = Gauge(n=n, kind="swap", i=i, j=j)
             h.parallel = n >= 3
-            jobs.append((h, {"time_budget": 3000}))
+            h.partial_ok = n >= 3
+            jobs.append((h, {"time_budget": 2400}))
         for i, j in itertools.permutations(range(n), 2):
             h = Gauge(n=n, kind="mul", i=i, j=j)
             h.parallel = n >= 3
-            jobs.append((h, {"time_budget": 3000}))
+            h.partial_ok = n >= 3
+            jobs.append((h, {"time_budget": 2400}))
     jobs.append((StabilizerEq(n=1, i=0, j=0), {}))
     for i, j in itertools.permutations(range(2), 2):
         jobs.append((StabilizerEq(n=2, i=i, j=j), {}))
@@ -319,13 +321,8 @@ def plan(tier):
             h.partial_ok = True
             jobs.append((h, {"time_budget": budget, "chunk_paths": 16, "chunk_s": 8.0}))
     if not q:
-        h = CanonicalForm(n=3)
-        h.parallel = True
-        jobs.append((h, {"time_budget": 3000}))
-        h = Fidelity(n=2, symmetry=False)
-        h.parallel = True
-        jobs.append((h, {"time_budget": 3600, "chunk_paths": 64}))
-        h = FidelitySelf(n=3)
-        h.parallel = True
-        jobs.append((h, {"time_budget": 5400, "chunk_paths": 64}))
+        for h, budget in ((CanonicalForm(n=3), 3600), (Fidelity(n=2, symmetry=False), 2 * 3600), (FidelitySelf(n=3), 3 * 3600)):
+            h.parallel = True
+            h.partial_ok = True  # budgets are sized to complete on an idle 16-core machine; a truncated run is reported as PARTIAL
+            jobs.append((h, {"time_budget": budget, "chunk_paths": 64}))
     return jobs
